@@ -11,9 +11,13 @@ package main
 //	new <mem|level|pndb> <version>     store kind and the single version used throughout
 //	pre ins <path> <hex> | pre del <path>   sequential setup on a builder trie
 //	rm <i>                             remove the i-th (mod n) non-root node reachable from the root from the store
+//	donor ins <path> <hex> | donor del <path>   sequential setup of the donor trie that `mergedb` merges in
 //	fresh                              the shared trie is a new trie object over the same store and root (empty node cache)
 //	t <tid> ins <path> <hex> | del <path> | get <path> | iter | root | changes | count | deletes | save | savec
 //	        | missing | allmissing | hasmissing | pause <n> | sleep <microseconds>
+//	        | deletes       GetDeletes: number of nodes, and how many of them are MergeDB's dead nodes
+//	        | mergedb       MergeDB(donor store, donor root, two dead nodes): the trie becomes the donor trie
+//	        | mergechild <path> <hex>   child trie opened at the current root inserts the key, MergeMPTChanges(child)
 //	        | changesread   GetChanges and then read the returned records as a caller would (fixed defect 4d3d8c8)
 //	        | setver        SetVersion(GetVersion()) - outside the property's operation list, never generated
 //
@@ -44,12 +48,12 @@ func init() {
 	childModes["c16child"] = c16Child
 	register(&Suite{
 		Name: "c16",
-		Rule: "2-6 goroutines run scripts (ins/del/get/iter/root/GetChanges/GetChangeCount/GetDeletes/SaveChanges/missing-node reads, random Gosched/sleeps) over one shared trie on mem/level/pndb stores; scenarios: lookups into nodes removed from the store, disjoint key sets, overlapping key sets, readers vs writer vs saver, snapshot stress (writers vs back-to-back GetChanges, each returned (root, changes, deletes, startRoot) replayed over the setup store and required to be one complete state); child process under the race detector (exit 66 = DATA RACE); porcupine against the map specification; final root/content and saved change sets checked; non-trivial = >= 2 goroutines and (a successful concurrent update or >= 2 absent-node hits)",
+		Rule: "2-6 goroutines run scripts (ins/del/get/iter/root/GetChanges/GetChangeCount/GetDeletes/SaveChanges/missing-node reads, random Gosched/sleeps) over one shared trie on mem/level/pndb stores; scenarios: lookups into nodes removed from the store, disjoint key sets, overlapping key sets, readers vs writer vs saver, merges (MergeDB from a donor store with dead nodes and MergeMPTChanges from a child trie vs back-to-back GetDeletes/GetChanges; GetDeletes must list the dead nodes of exactly the merges before it), snapshot stress (writers vs back-to-back GetChanges, each returned (root, changes, deletes, startRoot) replayed over the setup store and required to be one complete state); child process under the race detector (exit 66 = DATA RACE); porcupine against the map specification; final root/content and saved change sets checked; non-trivial = >= 2 goroutines and (a successful concurrent update or >= 2 absent-node hits)",
 		Gen:  genC16,
 		Run:  runC16,
 		DefaultN: func(tier string) int {
 			if tier == "thorough" {
-				return 30000
+				return 20000
 			}
 			return 900
 		},
@@ -175,6 +179,25 @@ func c16Child() {
 		case "fresh":
 			fresh = true
 			res[i].out = "ok"
+		case "donor":
+			// a second, independent trie (own store, same version) that `mergedb` merges into the shared trie
+			if c16Snap.donor == nil {
+				c16Snap.donorDB = util.NewMemoryNodeDB()
+				c16Snap.donor = newMPT(c16Snap.donorDB, version, nil)
+			}
+			res[i].out = guard(func() string {
+				var k util.Key
+				var err error
+				if f[1] == "ins" {
+					k, err = c16Snap.donor.Insert([]byte(pathOf(f[2])), mkVal(unhx(f[3])))
+				} else {
+					k, err = c16Snap.donor.Delete([]byte(pathOf(f[2])))
+				}
+				if err != nil {
+					return errKind(err)
+				}
+				return "ok " + rootStr(k)
+			})
 		default:
 			panic("unknown setup op " + op)
 		}
@@ -275,6 +298,16 @@ var c16Snap struct {
 	version int64
 	root0   util.Key // root the shared trie (and its change collector) started from
 	removed bool     // nodes were removed from the store: snapshots cannot be complete
+	donor   *util.MerklePatriciaTrie
+	donorDB *util.MemoryNodeDB
+}
+
+// the dead nodes every `mergedb` hands to MergeDB (they belong to no trie)
+func c16DeadNodes(version int64) []util.Node {
+	return []util.Node{
+		util.NewLeafNode(util.Path("dd"), util.Path("d0"), util.Sequence(version), mkVal([]byte("dead-node-0"))),
+		util.NewLeafNode(util.Path("dd"), util.Path("d1"), util.Sequence(version), mkVal([]byte("dead-node-1"))),
+	}
 }
 
 // c16SnapCheck judges (root, changes, deletes, startRoot) as ONE snapshot: the changes replayed into a fresh store
@@ -366,7 +399,35 @@ func c16Exec(mpt *util.MerklePatriciaTrie, db2 util.NodeDB, f []string, post *fu
 		case "count":
 			return fmt.Sprintf("ok %d", mpt.GetChangeCount())
 		case "deletes":
-			return fmt.Sprintf("ok %d", len(mpt.GetDeletes()))
+			dead := map[string]bool{}
+			for _, d := range c16DeadNodes(c16Snap.version) {
+				dead[d.GetHash()] = true
+			}
+			nodes := mpt.GetDeletes()
+			n := 0
+			for _, d := range nodes {
+				if dead[d.GetHash()] {
+					n++
+				}
+			}
+			return fmt.Sprintf("ok %d dead=%d", len(nodes), n)
+		case "mergedb":
+			// MergeDB: the shared trie becomes the donor trie (root + all its nodes), plus two dead nodes
+			var root util.Key
+			var ndb util.NodeDB = util.NewMemoryNodeDB()
+			if c16Snap.donor != nil {
+				root, ndb = c16Snap.donor.GetRoot(), c16Snap.donorDB
+			}
+			return errKind(mpt.MergeDB(ndb, root, c16DeadNodes(c16Snap.version)))
+		case "mergechild":
+			// a child trie opened at the current root inserts one key and is merged back (MergeMPTChanges):
+			// succeeds only if the shared trie's root is still the one the child started from
+			root := mpt.GetRoot()
+			child := newMPT(util.NewLevelNodeDB(util.NewMemoryNodeDB(), mpt.GetNodeDB(), false), c16Snap.version, root)
+			if _, err := child.Insert([]byte(pathOf(f[1])), mkVal(unhx(f[2]))); err != nil {
+				return "childfail"
+			}
+			return errKind(mpt.MergeMPTChanges(child))
 		case "save":
 			return errKind(mpt.SaveChanges(context.Background(), db2, false))
 		case "savec":
@@ -442,18 +503,57 @@ func canonRootOf(m map[string]string, version int64) string {
 
 // c16Model is the sequential map specification. State = canonical content string. In `removed` scenarios an
 // operation may fail with nodenotfound / iterchild at any time and is then a no-op.
-func c16Model(init string, version int64, removed bool) porcupine.Model {
+func c16Model(init string, version int64, removed bool, donor string) porcupine.Model {
 	softFail := func(out string) bool {
 		return removed && (out == "nodenotfound" || out == "iterchild" || out == "missingnodes")
 	}
+	inner := c16ContentStep(version)
 	return porcupine.Model{
-		Init:  func() interface{} { return init },
+		// state = "<number of MergeDB calls so far>#<content>"
+		Init:  func() interface{} { return "0#" + init },
 		Equal: func(a, b interface{}) bool { return a.(string) == b.(string) },
 		Step: func(state, input, output interface{}) (bool, interface{}) {
-			st, in, out := state.(string), input.(linIn), output.(string)
+			full, in, out := state.(string), input.(linIn), output.(string)
 			if softFail(out) {
-				return true, st
+				return true, full
 			}
+			sep := strings.IndexByte(full, '#')
+			merges, _ := strconv.Atoi(full[:sep])
+			st := full[sep+1:]
+			switch in.kind {
+			case "mergedb": // the trie becomes the donor trie; two more dead nodes are recorded
+				if out != "ok" {
+					return false, full
+				}
+				return true, fmt.Sprintf("%d#%s", merges+1, donor)
+			case "deletes": // GetDeletes must list the dead nodes of exactly the MergeDB calls before it
+				f := strings.Fields(out)
+				return len(f) == 3 && f[0] == "ok" && f[2] == fmt.Sprintf("dead=%d", 2*merges), full
+			case "mergechild":
+				if out == "stale" || out == "childfail" {
+					return true, full
+				}
+				if out != "ok" {
+					return false, full
+				}
+				m := parseContent(st)
+				m[in.key] = in.val
+				return true, fmt.Sprintf("%d#%s", merges, contentStr(m))
+			}
+			ok, ns := inner(st, in, out)
+			return ok, fmt.Sprintf("%d#%s", merges, ns)
+		},
+		DescribeOperation: func(input, output interface{}) string {
+			in := input.(linIn)
+			return fmt.Sprintf("%s %s %s -> %s", in.kind, ptok(in.key), in.val, output.(string))
+		},
+	}
+}
+
+// c16ContentStep is the map specification proper: content string -> content string
+func c16ContentStep(version int64) func(st string, in linIn, out string) (bool, string) {
+	return func(st string, in linIn, out string) (bool, string) {
+		{
 			m := parseContent(st)
 			switch in.kind {
 			case "ins":
@@ -502,11 +602,7 @@ func c16Model(init string, version int64, removed bool) porcupine.Model {
 				return true, st
 			}
 			return false, st
-		},
-		DescribeOperation: func(input, output interface{}) string {
-			in := input.(linIn)
-			return fmt.Sprintf("%s %s %s -> %s", in.kind, ptok(in.key), in.val, output.(string))
-		},
+		}
 	}
 }
 
@@ -694,6 +790,7 @@ func runC16(ops []string) (res CaseResult) {
 
 	// sequential setup replayed on a Go map
 	content := map[string]string{}
+	donor := map[string]string{}
 	var version int64
 	removed, kind := false, ""
 	threadIDs := map[string]bool{}
@@ -716,6 +813,15 @@ func runC16(ops []string) (res CaseResult) {
 					fail("op %d (%s): setup delete returned %s, key present=%v", i, op, recs[i].out, present)
 				}
 				delete(content, pathOf(f[2]))
+			}
+		case "donor":
+			if f[1] == "ins" {
+				if !strings.HasPrefix(recs[i].out, "ok") {
+					fail("op %d (%s): donor insert failed: %s", i, op, recs[i].out)
+				}
+				donor[pathOf(f[2])] = f[3]
+			} else {
+				delete(donor, pathOf(f[2]))
 			}
 		case "rm":
 			if strings.HasPrefix(recs[i].out, "ok") {
@@ -814,7 +920,19 @@ func runC16(ops []string) (res CaseResult) {
 				onlyGetsHit = false
 			}
 			continue
-		case "save", "savec", "count", "deletes", "missing", "setver":
+		case "mergedb", "deletes":
+			in = linIn{f[2], "", ""}
+			fullState = true
+			if out == "ok" {
+				updatesOK++
+			}
+		case "mergechild":
+			in = linIn{"mergechild", pathOf(f[3]), f[4]}
+			fullState = true
+			if out == "ok" {
+				updatesOK++
+			}
+		case "save", "savec", "count", "missing", "setver":
 			if strings.HasPrefix(out, "err") {
 				fail("op %d (%s): returned %s", i, op, out)
 			}
@@ -854,7 +972,7 @@ func runC16(ops []string) (res CaseResult) {
 			}
 		}
 	}
-	model := c16Model(init, version, removed)
+	model := c16Model(init, version, removed, contentStr(donor))
 	if !fullState {
 		// only single-key operations: check each key's sub-history on its own (the final content becomes one
 		// final lookup per key; the final root is compared with the canonical root of the final content below)
@@ -955,6 +1073,15 @@ func genC16(r *rand.Rand, tier string, idx int) []string {
 			maxOps = 60
 		}
 	}
+	if idx%8 == 5 {
+		// merges: MergeDB (the only writer of deleteNodes) and child merges vs back-to-back GetDeletes / GetChanges
+		scenario = 5
+		nThreads = 3 + r.Intn(3)
+		maxOps = 16
+		if tier == "thorough" {
+			maxOps = 30
+		}
+	}
 	var pool []string
 	nPre := 3 + r.Intn(8)
 	if scenario == 1 {
@@ -974,6 +1101,11 @@ func genC16(r *rand.Rand, tier string, idx int) []string {
 	}
 	if scenario != 1 && r.Intn(4) == 0 && len(pool) > 0 {
 		ops = append(ops, "pre del "+ptok(pool[r.Intn(len(pool))]))
+	}
+	if scenario == 5 {
+		for k, n := 0, r.Intn(6); k < n; k++ {
+			ops = append(ops, "donor ins "+ptok(genPath(r, alpha, pool))+" "+genValue(r))
+		}
 	}
 	if scenario == 0 {
 		for k, n := 0, 1+r.Intn(2); k < n; k++ {
@@ -1022,10 +1154,36 @@ func genC16(r *rand.Rand, tier string, idx int) []string {
 			role = []string{"writer", "snapshotter", "writer", "snapshotter", "snapshotter"}[tid%5]
 			n = maxOps/2 + r.Intn(maxOps/2)
 		}
+		if scenario == 5 {
+			role = []string{"merger", "delreader", "writer", "delreader", "merger"}[tid%5]
+			n = maxOps/2 + r.Intn(maxOps/2)
+		}
 		for k := 0; k < n; k++ {
 			x := r.Intn(100)
 			var line string
 			switch role {
+			case "merger":
+				switch {
+				case x < 40:
+					line = "mergedb"
+				case x < 70:
+					line = "mergechild " + ptok(key()) + " " + genValue(r)
+				case x < 90:
+					line = "ins " + ptok(key()) + " " + genValue(r)
+				default:
+					line = "del " + ptok(key())
+				}
+			case "delreader":
+				switch {
+				case x < 65:
+					line = "deletes"
+				case x < 80:
+					line = "changes"
+				case x < 90:
+					line = "iter"
+				default:
+					line = "root"
+				}
 			case "snapshotter":
 				if x < 60 {
 					line = "changes"
